@@ -212,7 +212,8 @@ fn amplification(tape: &mut Tape, r: &mut Rng) -> (Vec<u8>, String) {
         0 => {
             // one message, n pointers all onto one moment block
             let n = [16usize, 256, 4096, 20000, 65535][tape.draw(5) as usize];
-            let gates = if n > 5000 { tape.draw(64) as usize } else { tape.draw(1841) as usize };
+            // count x block size is what a decoder that keeps every referenced block alive would hold
+            let gates = if tape.draw(3) == 0 { tape.draw(64) as usize } else { 200 + tape.draw(1641) as usize };
             let body_len = 32 + 4 * n + 28 + gates;
             let mut body = vec![0u8; body_len];
             r.fill(&mut body);
